@@ -4,7 +4,7 @@
 SPECIFICATION Spec
 CONSTANTS
   M = 16
-  Keeps = {0, 1, 2, 3}
+  Keeps = {0, 1, 2, 3, 4}
   Sets = {0, 1, 2}
   MaxRuns = 5
   Bases = {0,1,2,3,4,5,6,7,8,9,10,11,12,13,14,15}
